@@ -233,7 +233,7 @@ func newPackage(program *loader.Program, pkgInfo *loader.PackageInfo, plugins []
 				return nil, fmt.Errorf("cannot rename the derive calls in %s: it does not parse at %s, and writing it back would lose what follows", fileInfo.fullpath, program.Fset.Position(bad.Pos()))
 			}
 			if err := firstSyntaxError(fileInfo.fullpath); err != nil {
-				return nil, fmt.Errorf("cannot rename the derive calls in %s: it does not parse (%v), and writing it back could lose part of it", fileInfo.fullpath, err)
+				return nil, fmt.Errorf("cannot rename the derive calls in %s: it cannot be written back as it is (%v)", fileInfo.fullpath, err)
 			}
 			info, err := os.Stat(fileInfo.fullpath)
 			if err != nil {
@@ -267,15 +267,26 @@ func (p *importReserver) NewImport(name, path string) Import {
 }
 
 // firstSyntaxError returns the first error that the scanner or the parser reports for the file, or nil.
+// A file that cgo translates is reported as well: its syntax tree is not that of the file.
 // The parser can skip source text without leaving a placeholder in the syntax tree (x := 1 2 is parsed as x := 1).
 // The file is parsed once more for this: the errors that the loader recorded bear positions that follow //line directives,
 // which do not tell the file they come from.
 func firstSyntaxError(filename string) error {
-	_, err := parser.ParseFile(token.NewFileSet(), filename, nil, parser.ParseComments)
+	file, err := parser.ParseFile(token.NewFileSet(), filename, nil, parser.ParseComments)
 	if list, isList := err.(scanner.ErrorList); isList && len(list) > 0 {
 		return list[0]
 	}
-	return err
+	if err != nil {
+		return err
+	}
+	for _, spec := range file.Imports {
+		if spec.Path.Value == `"C"` {
+			// The loader has cgo translate such a file and parses the translation under the name of the file:
+			// what would be written back is not the text of the user.
+			return fmt.Errorf("%s imports \"C\": the loader only sees what cgo makes of it", filename)
+		}
+	}
+	return nil
 }
 
 // firstBadNode returns the first placeholder that the parser left in the file for source it could not parse, or nil.
